@@ -34,6 +34,16 @@ def same(a, b):
     return a.shape == b.shape and np.array_equal(a, b, equal_nan=True)
 
 
+def close(a, b, ulps=8):
+    """Equal up to a few ulp (derived quantities: node positions, rescaled profiles, gradients may be computed
+    by an arithmetically equivalent expression); NaN equals NaN."""
+    if a.shape != b.shape:
+        return False
+    with np.errstate(all="ignore"):
+        ok = np.abs(a - b) <= ulps * np.finfo(float).eps * np.maximum(np.abs(a), np.abs(b))
+    return bool(np.all(ok | (np.isnan(a) & np.isnan(b)) | (a == b)))
+
+
 def eval_profiles(case):
     import matplotlib.pyplot as plt  # noqa: PLC0415
 
@@ -60,10 +70,10 @@ def eval_profiles(case):
                           f"{len(want)}", case=case, observed=len(got), expected=len(want)))
         else:
             for k, ((gx, gy), wy) in enumerate(zip(got, want)):
-                if not same(gx, x):
+                if not close(gx, x):
                     viol.append(V("profiles/node-positions", f"curve {k}: x data is not linspace(1/nx, 1, nx)", case=case))
                     break
-                if not same(gy, np.asarray(wy, dtype=float)):
+                if not (close(gy, np.asarray(wy, dtype=float)) if rescale else same(gy, np.asarray(wy, dtype=float))):
                     viol.append(V("profiles/data", f"curve {k} (profile {k * every}) does not carry the "
                                   f"{'rescaled ' if rescale else ''}pseudopressure profile "
                                   f"(max diff {np.nanmax(np.abs(gy - wy)):.3g})", case=case))
@@ -98,7 +108,8 @@ def eval_recovery(case):
                 wy = rf if kind == "factor" else np.gradient(rf, t)
             if len(got) != 1:
                 viol.append(V(f"recovery-{kind}/count", f"{len(got)} curves drawn, expected 1", case=case))
-            elif not (same(got[0][0], t) and same(got[0][1], np.asarray(wy, dtype=float))):
+            elif not (same(got[0][0], t) and (same(got[0][1], np.asarray(wy, dtype=float)) if kind == "factor"
+                                              else np.allclose(got[0][1], wy, rtol=1e-12, atol=1e-14 * np.nanmax(np.abs(wy)), equal_nan=True))):
                 viol.append(V(f"recovery-{kind}/data", f"the drawn curve is not (scaled time, "
                               f"{'recovery factor' if kind == 'factor' else 'time derivative of recovery'})", case=case))
             if kind == "factor" and out.get_xscale() != "squareroot":
